@@ -104,14 +104,16 @@ BaseModel(b) == [decls |-> BaseDecls(b.s, b.inj),
                  cfg |-> Cfg(b.s \o <<"M">>, Prov(b.sem), Req(b.sem), IF b.mc THEN Mc ELSE NoMc)]
 
 Faults == {"none", "enc-unknown", "enc-interface", "enc-enum", "enc-ambiguous",
-           "port-type-missing", "port-type-wrong-kind", "port-type-ambiguous",
+           "port-type-missing", "port-type-wrong-kind", "port-type-ambiguous", "port-type-ambiguous-chain",
            "sel-unknown", "sel-unassigned", "sel-contradictory", "sel-all-plus", "sel-all-remaining", "sel-mixed-provides",
            "sel-equal-none",
            "mc-port-unknown", "mc-port-requires", "mc-port-requires-same-itf", "mc-port-sts", "mc-claim-unknown", "mc-reply-not-enum",
-           "mc-grant-bad", "mc-release-unknown",
-           "formal-missing", "formal-wrong-kind", "formal-ambiguous"}
+           "mc-grant-bad", "mc-release-unknown", "mc-release-out", "mc-release-is-claim",
+           "mc-port-empty", "mc-claim-empty", "mc-grant-empty", "mc-release-empty",
+           "formal-missing", "formal-wrong-kind", "formal-ambiguous", "formal-ambiguous-chain"}
 McFaults == {"mc-port-unknown", "mc-port-requires", "mc-port-requires-same-itf", "mc-port-sts", "mc-claim-unknown", "mc-reply-not-enum",
-             "mc-grant-bad", "mc-release-unknown"}
+             "mc-grant-bad", "mc-release-unknown", "mc-release-out", "mc-release-is-claim",
+             "mc-port-empty", "mc-claim-empty", "mc-grant-empty", "mc-release-empty"}
 
 CompIdx(m) == CHOOSE i \in DOMAIN m.decls : m.decls[i].kind = "component"
 WithPort1Type(m, ty) == [m EXCEPT !.decls[CompIdx(m)].ports[1].type = ty]
@@ -126,6 +128,8 @@ Apply(m, b, f) ==
     [] f = "port-type-missing"    -> WithPort1Type(m, <<"Zz">>)
     [] f = "port-type-wrong-kind" -> WithPort1Type(m, <<"T">>)
     [] f = "port-type-ambiguous"  -> [m EXCEPT !.decls = Append(@, I1(b.s))]
+    \* a second I1 in the global scope: for a component in namespace A both A.I1 and I1 are on the scope chain
+    [] f = "port-type-ambiguous-chain" -> [m EXCEPT !.decls = Append(@, I1(<<>>))]
     [] f = "sel-unknown"    -> [m EXCEPT !.cfg.req = [sts |-> Named({"zz"}), mts |-> Wild("REMAINING")]]
     [] f = "sel-unassigned" -> [m EXCEPT !.decls[CompIdx(m)].ports = Append(@, Pt("r2", <<"I2">>, "requires", FALSE)),
                                          !.cfg.req = [sts |-> Named({"r"}), mts |-> Wild("NONE")]]
@@ -142,9 +146,17 @@ Apply(m, b, f) ==
     [] f = "mc-reply-not-enum"  -> [m EXCEPT !.cfg.mc.claim = "Other"]
     [] f = "mc-grant-bad"       -> [m EXCEPT !.cfg.mc.grant = <<"Maybe">>]
     [] f = "mc-release-unknown" -> [m EXCEPT !.cfg.mc.release = "Nope"]
+    [] f = "mc-release-out"     -> [m EXCEPT !.cfg.mc.release = "Sig"]         \* an out-event cannot release anything
+    [] f = "mc-release-is-claim" -> [m EXCEPT !.cfg.mc.release = "Claim"]
+    [] f = "mc-port-empty"      -> [m EXCEPT !.cfg.mc.port = ""]
+    [] f = "mc-claim-empty"     -> [m EXCEPT !.cfg.mc.claim = ""]
+    [] f = "mc-grant-empty"     -> [m EXCEPT !.cfg.mc.grant = <<>>]
+    [] f = "mc-release-empty"   -> [m EXCEPT !.cfg.mc.release = ""]
     [] f = "formal-missing"     -> NoteFormal(m, <<"Zz">>)
     [] f = "formal-wrong-kind"  -> NoteFormal(m, <<"E">>)
     [] f = "formal-ambiguous"   -> [m EXCEPT !.decls = Append(@, [D("extern", <<"T">>) EXCEPT !.cpp = "long"])]
+    \* an extern T local to interface I2 next to the global T: both are on the chain of I2's formals
+    [] f = "formal-ambiguous-chain" -> [m EXCEPT !.decls = Append(@, [D("extern", b.s \o <<"I2", "T">>) EXCEPT !.cpp = "long"])]
 
 Model ==
   CASE Mode = "port-type"   -> PortTypeModel
@@ -184,7 +196,7 @@ C13Law == Mode = "faults" =>
   LET o == BuildOutcome(Model.decls, Model.cfg) IN
   /\ (fault = "none" => o.ok /\ ~ConfigRejected(Model.cfg))
   /\ (~o.ok => o.exc \in {"AdvShellError", "MultiClientCfgError", "FindError", "ValueError"})
-  /\ (fault \notin {"none", "formal-missing", "formal-wrong-kind", "formal-ambiguous", "sel-equal-none"}
+  /\ (fault \notin {"none", "formal-missing", "formal-wrong-kind", "formal-ambiguous", "formal-ambiguous-chain", "sel-equal-none"}
         => (~o.ok \/ ConfigRejected(Model.cfg)))
 
 Emit == PrintT(ToJson([mode |-> Mode, decls |-> Model.decls, cfg |-> Model.cfg,
